@@ -149,7 +149,12 @@ func execArgs(a *argSet, obj sim.TimeSteppingModel, variant, cut int, tailSeed f
 	if obj == nil {
 		obj = sim.Catalog[c.Model]()
 	}
-	dims := obj.FindDimensions(bufs.par)
+	// the dimensions are asked of the object itself or - like ow-sim - of a scratch object
+	finder := obj
+	if scratchFind {
+		finder = sim.Catalog[c.Model]()
+	}
+	dims := finder.FindDimensions(bufs.par)
 	if len(dims) > 0 {
 		// like ow-sim, which initialises the dimensions of a model object once and then applies
 		// parameters before every run: skip the re-initialisation when the object already has
@@ -172,6 +177,8 @@ func execArgs(a *argSet, obj sim.TimeSteppingModel, variant, cut int, tailSeed f
 	obj.Run(bufs.in, bufs.st, bufs.out)
 	return obj, bufs, flat3(bufs.out), flat2(bufs.st), T
 }
+
+var scratchFind bool
 
 var (
 	envZones     []*time.Location
@@ -319,6 +326,7 @@ func enginePure(rc *RunCtx) *Outcome {
 
 	objDims = map[sim.TimeSteppingModel]string{}
 	skipReinit = w.Bool(70)
+	scratchFind = w.Bool(50)
 	s := simrt.Run(rc.T, simrt.Config{DeepPct: 20}, rc.S, func() {
 		// pristine memo: every argument set once, on a fresh object
 		for ai, a := range sets {
@@ -399,6 +407,18 @@ func enginePure(rc *RunCtx) *Outcome {
 					check(b, bi, outB, finB, 0, 0, TB, "while "+a.c.Model+" ran concurrently, fresh object")
 				}
 				continue
+			}
+			if obj != nil && a.c.MaxDim > 0 && w.Bool(50) {
+				// a query: what dimensions would ANOTHER parameter matrix need?  FindDimensions answers
+				// without changing the object (front ends use it on objects they go on using)
+				od := a.c.MaxDim + 1 + w.Choose(3)
+				if w.Bool(40) && a.c.MaxDim > 2 {
+					od = 2 + w.Choose(a.c.MaxDim-2)
+				}
+				other := domains.GenParams(w, a.c.Model, od, od)
+				obj.FindDimensions(paramMatrix(false, [][]float64{other}))
+				opLog = append(opLog, fmt.Sprintf("FindDimensions(another matrix, table size %d) on the object of %d:%s", od, ai, a.c.Model))
+				o.probe("dimension_query_with_another_matrix_between_runs")
 			}
 			opLog = append(opLog, fmt.Sprintf("run(%d:%s,%s,variant=%d,cut=%d)", ai, a.c.Model, how, variant, cut))
 			reuse := variant == 0 && w.Bool(35)
